@@ -99,3 +99,38 @@ def method_classes(method, prefix="") -> List[str]:
 
 def self_of(bound_method):
     return getattr(bound_method, "__self__", None)
+
+
+def tree_state(method):
+    """concrete state of a compiled method tree (sets, dicts, tuples and scalars held by the
+    method objects); compared before / after a call: a deserialize / serialize call must not
+    leave anything behind in the cached method it ran"""
+    seen = {}
+
+    def rec(x, depth=0):
+        if depth > 40:
+            return "..."
+        if x is None or isinstance(x, (bool, int, float, str)):
+            return x
+        if isinstance(x, type) or callable(x) and not dataclasses.is_dataclass(x):
+            return ("obj", id(x))
+        if id(x) in seen:
+            return ("ref", seen[id(x)])
+        seen[id(x)] = len(seen)
+        if isinstance(x, (set, frozenset)):
+            return ("set", sorted((repr(rec(v, depth + 1)) for v in x)))
+        if isinstance(x, dict):
+            return ("dict", [(repr(k), rec(v, depth + 1)) for k, v in x.items()])
+        if isinstance(x, (list, tuple)):
+            return ("seq", [rec(v, depth + 1) for v in x])
+        if dataclasses.is_dataclass(x) and type(x).__module__.startswith("apischema."):
+            out = []
+            for f in dataclasses.fields(x):
+                v = getattr(x, f.name, None)
+                if type(x).__name__ == "RecMethod" and f.name == "method":
+                    continue  # lazily resolved once: allowed
+                out.append((f.name, rec(v, depth + 1)))
+            return (type(x).__name__, out)
+        return ("obj", id(x))
+
+    return rec(method)
